@@ -520,3 +520,83 @@ class WireTitleTask(Task):
              detail=repr(sae[0].args[1:] if ok else None))
         stored = [e for e in tr if e.name == "setattr" and e.args[0] == "pdu" and e.args[1] == f"_{self.which}_aet"]
         I.ob(f"{P}/the-validated-title-is-what-is-stored", len(stored) == 1 and getattr(stored[0].args[2], "path", None) == "validated_title")
+
+
+class HandlerFn:
+    """a user's handler function: compares equal only to itself (functions compare by identity)"""
+
+    def __init__(self, name):
+        self.name = name
+
+    def truth(self, I):
+        return True
+
+    def sym_eq(self, I, other):
+        return other is self
+
+    def __repr__(self):
+        return f"<handler {self.name}>"
+
+
+class UnbindTask(Task):
+    """events._remove_handler, behind Association/AssociationServer.unbind(): the acceptance policy (EVT_USER_ID) and every
+    other intervention handler stay bound until THEY are unbound - unbinding some other callable changes nothing; unbinding the
+    bound handler puts the default back; a notification handler is removed from its list and nothing else is; other events
+    are never touched."""
+    name = "events._remove_handler"
+    FN = "pynetdicom.events:_remove_handler"
+    functions = [FN]
+
+    def __init__(self, prefix="C13/"):
+        self.prefix = prefix
+
+    def config(self, repo):
+        c = Config()
+        c.ob_prefix = self.prefix
+        c.summaries["pynetdicom.events:get_default_handler"] = lambda I, a, k: I.ghost["default"]
+        return c
+
+    def body(self, I):
+        P = f"{self.prefix}{self.FN}"
+        g = I.ghost
+        kind_ev = ["intervention", "notification"][I.choose(2, "kind of event")]
+        ci = I.repo.cls("pynetdicom.events:" + ("InterventionEvent" if kind_ev == "intervention" else "NotificationEvent"))
+        ev, other_ev = Obj(ci, tag="event"), Obj(ci, tag="another-event")
+        ev.fields.update(name="EVT_X", description="x", is_intervention=kind_ev == "intervention", is_notification=kind_ev != "intervention")
+        other_ev.fields.update(ev.fields)
+        bound, stranger, second = HandlerFn("bound_handler"), HandlerFn("some_other_callable"), HandlerFn("second_bound_handler")
+        g["default"] = HandlerFn("default_handler")
+        other_value = (HandlerFn("handler_of_another_event"), None) if kind_ev == "intervention" else [(HandlerFn("handler_of_another_event"), None)]
+        present = I.choose(2, "event has bindings") == 0
+        which = [bound, stranger][I.choose(2, "which callable is unbound")]
+        if kind_ev == "intervention":
+            value = (bound, Env("args") if I.choose(2, "bound with args") == 0 else None)
+        else:
+            value = [(bound, None)] + ([(second, None)] if I.choose(2, "a second handler is bound") == 0 else [])
+        attr = {other_ev: other_value}
+        if present:
+            attr[ev] = value
+        before = list(value) if isinstance(value, list) else value
+        kind, val = I.run_function(I.repo.func(self.FN), [ev, attr, which])
+        I.ob(f"{P}/no-exception", kind == "return", detail=f"{kind}:{val!r}")
+        if kind != "return":
+            return
+        I.ob(f"{P}/bindings-of-other-events-are-untouched", attr.get(other_ev) is other_value and set(attr) <= {ev, other_ev})
+        if not present:
+            I.ob(f"{P}/nothing-happens-for-an-event-without-bindings", ev not in attr)
+            return
+        now = attr.get(ev, "<removed>")
+        if kind_ev == "intervention":
+            if which is bound:
+                I.ob(f"{P}/unbinding-the-bound-intervention-handler-puts-the-default-back",
+                     isinstance(now, tuple) and len(now) == 2 and now[0] is g["default"] and now[1] is None, detail=repr(now))
+            else:
+                I.ob(f"{P}/unbinding-a-callable-that-is-not-bound-leaves-the-intervention-handler-in-place", now is value,
+                     detail=f"bound {value!r}, afterwards {now!r}")
+        else:
+            left = [h for h in before if h[0] is not which]
+            if left:
+                I.ob(f"{P}/exactly-the-named-notification-handler-is-removed", isinstance(now, list) and len(now) == len(left)
+                     and all(a is b for a, b in zip(now, left)), detail=repr(now))
+            else:
+                I.ob(f"{P}/an-event-without-handlers-left-is-dropped-from-the-map", ev not in attr, detail=repr(now))
